@@ -26,6 +26,7 @@ from vp import c02_extract as X
 from vp import c02_lemma as L
 from vp import c02_num as N
 from vp import c02_coq
+from vp import c02_special as S
 
 TP_KEY = "C02:core.geometry.line.two_point_function:float-precision"
 SOLVE_KEY = "C02:solve-after-substitution:float-precision"
@@ -281,6 +282,26 @@ def work(idx):
             if n_ok:
                 break
         out["inadmissible"] = why_count
+        # deterministic special tuples (exact arguments): comparison boundaries, vectors of different lengths, long sequences
+        t_sp = time.time()
+        rng_s = random.Random(f"{cfg['seed']}:special:{item.key}")
+        sp = []
+        try:
+            if S.comparisons_of(ex):
+                sp += S.boundary_stream(item, ex, specs, plan, rng_s, pick_branch)
+            if any(isinstance(a.value, X.SVec) for a in ex.args):
+                sp += S.mixed_length_stream(item, ex, specs, plan, rng_s, pick_branch)
+            if item.key == min(it.key for it in _ITEMS if it.module is item.module):
+                sp += S.inverse_numeric(item.module, rng_s)
+            if S.has_sequence_arg(ex):
+                sp += S.long_sequence_stream(item, build_lemmas, rng_s, pick_branch, cfg["seq_lengths"])
+        except Exception as e:  # pylint: disable=broad-except
+            sp.append({"stream": "special", "status": "error", "why": f"{type(e).__name__}: {e}", "tb": traceback.format_exc()[-800:]})
+        out["special"] = {"n": len(sp), "by_stream": {}, "bad": [r for r in sp if r.get("status") in ("mismatch", "law-fail", "error")][:4],
+            "sample": next((r for r in sp if r.get("status") == "ok"), None), "t": round(time.time() - t_sp, 2)}
+        for r in sp:
+            k = f"{r.get('stream')}:{r.get('status')}"
+            out["special"]["by_stream"][k] = out["special"]["by_stream"].get(k, 0) + 1
         out["tie"] = {"admissible": n_ok, "attempts": attempts,
             "ok": sum(c["status"] == "ok" for c in calls),
             "bad": [c for c in calls if c["status"] != "ok"][:3],
@@ -357,7 +378,7 @@ def run(ctx):
     t0 = time.time()
     items, nmods, import_errors = X.catalogue()
     _ITEMS = items
-    _CFG = {"seed": ctx.seed, "tuples": ctx.pick(3, 20)}
+    _CFG = {"seed": ctx.seed, "tuples": ctx.pick(3, 20), "seq_lengths": S.SEQ_LENGTHS}
     ctx.log(f"catalogue: {len(items)} calculate_* functions in {nmods} modules ({time.time() - t0:.1f}s)")
 
     n_corpus = run_corpus(ctx, items)
@@ -480,6 +501,28 @@ def run(ctx):
                     f"extracted closed form of {r['key']} disagrees with the real function ({c['status']})", rep,
                     found_input=False)
             break
+    special_counts = {}
+    for r in extracted:
+        spx = r.get("special") or {}
+        for k, v in (spx.get("by_stream") or {}).items():
+            special_counts[k] = special_counts.get(k, 0) + v
+        for c in spx.get("bad", [])[:2]:
+            stream = c.get("stream", "special")
+            rep = {"kind": "law-residual" if c.get("status") == "law-fail" else "tie", "item": r["key"], "stream": stream,
+                "si_values": c.get("env"), "units": c.get("units") or c.get("units_sample"), "observed": c.get("observed"),
+                "real_outcome": c.get("real"), "error": c.get("error"), "closed_form_value": c.get("closed_form_value"),
+                "law_value": c.get("law_value"), "residual": c.get("residual"), "comparison": c.get("comparison"),
+                "position": c.get("position"), "vec_len": c.get("lengths"), "seq_len": c.get("length"), "pair": c.get("pair"),
+                "why": c.get("why"), "theorem_or_tie": f"{stream} tuple (exact arguments) of the numeric tie"}
+            what = {"boundary": f"{r['key']} disagrees with its law / closed form on the boundary of `{c.get('comparison')}` "
+                        f"({c.get('position')}; equal SI values written in different units)",
+                    "mixed-length": f"{r['key']} disagrees with its law function for vector arguments of lengths {c.get('lengths')}",
+                    "inverse-mixed-length": f"law functions {c.get('pair')} of {r['key'].rsplit('.', 1)[0]} are not mutual inverses on vectors of different lengths",
+                    "long-sequence": f"{r['key']} disagrees with its law for a sequence of {c.get('length')} elements"}.get(stream,
+                        f"special tuple stream failed for {r['key']}: {c.get('why')}")
+            ctx.violation(f"C02:{r['key']}:{stream}", what, rep, found_input=c.get("status") == "law-fail")
+            break
+    ctx.coverage["special_tuples"] = special_counts
     for u in untied:
         if u["only_conditioning"]:
             continue    # every drawn point was numerically ill-conditioned: loss of tie coverage, listed in evidence
@@ -489,7 +532,7 @@ def run(ctx):
                 found_input=False)
 
     # ---- evidence ---------------------------------------------------------------------------
-    ctx.evaluated(n_calls, n_tied)
+    ctx.evaluated(n_calls + sum(v for k, v in special_counts.items() if not k.endswith(":skipped")), n_tied)
     cov = ctx.coverage
     cov["rule"] = ("every calculate_* of laws/definitions/conditions is extracted and gets one lemma per returning path; "
         "evaluations = calls of the REAL decorated function on seeded admissible tuples (log-uniform magnitudes, random "
@@ -557,7 +600,7 @@ def run(ctx):
         ctx.log(f"allowlists written: {len(unex)} unextracted/untied, {len(unpr)} unproved/no-obligation")
 
 
-def evaluate_input(item, ex, specs, env_in):
+def evaluate_input(item, ex, specs, env_in, vec_len=None):
     """Run the REAL function on the recorded SI values (written in SI units) and evaluate tie + law residual strictly.
     -> dict(error | got, want, tie_ok, verdicts, bad)"""
     from symplyphysics import Quantity  # pylint: disable=import-outside-toplevel
@@ -568,7 +611,9 @@ def evaluate_input(item, ex, specs, env_in):
 
     def mk(v, arg):
         if isinstance(v, X.SVec):
-            return QuantityVector([mk(c, arg) for c in v.components])
+            n = (vec_len or {}).get(arg.param, len(v.components))
+            comps = [mk(c, arg) for c in v.components]
+            return QuantityVector([c if isinstance(c, sympy.Basic) and hasattr(c, "scale_factor") else Quantity(c) for c in comps[:n]])
         if isinstance(v, (list, tuple)):
             t = [mk(x, arg) for x in v]
             return tuple(t) if isinstance(v, tuple) else t
@@ -648,6 +693,8 @@ def replay(ctx, rep):
         print(f"replay: item {key} not found")
         return 2
     item = items[idx]
+    if rep.get("seq_len"):
+        X.SEQ_LEN = int(rep["seq_len"])
     ex = X.extract(item)
     print(f"replay: {key}: extraction status={ex.status} {ex.reason}")
     if ex.status != "ok":
@@ -659,6 +706,19 @@ def replay(ctx, rep):
     if not env_in:
         print("replay: no concrete input recorded (", rep.get("theorem_or_tie"), ")")
         return 1
+    if rep.get("stream"):
+        # special tuple: judged exactly as in the run (refusals, +-oo and the law's own value included)
+        plan = N.leaf_plan(ex)
+        env = {s: sympy.sympify(env_in[str(s)]) for a in ex.args for s in a.syms}
+        kwargs, _d = S.build_call(ex, env, random.Random(0), plan, vec_len=rep.get("vec_len"))
+        r = S.judge(item, ex, specs, kwargs, env, pick_branch)
+        shown = {k: r.get(k) for k in ("real", "observed", "error", "expected_kind", "closed_form_value", "law_value", "residual", "status")}
+        if len(env) > 12:
+            print(f"replay: {len(env)} arguments (sequence of {rep.get('seq_len')})")
+        else:
+            print("replay: SI arguments:", {str(k): str(v) for k, v in env.items()}, "vector lengths:", rep.get("vec_len"))
+        print("replay:", shown)
+        return 0 if r["status"] in ("ok", "skipped") else 1
     r = evaluate_input(item, ex, specs, env_in)
     print("replay: SI arguments:", r["si_values"])
     if "error" in r:
